@@ -1,14 +1,18 @@
 import Aiorpcx.Common.Hex
 import Aiorpcx.C08.Model
 /-! Line-protocol driver for the C08 lifecycle model.
-    in : `<sent_request_timeout> <stalled 0|1> <default force_after> ; <event> ; ...`
+    in : `<sent_request_timeout> <processing_timeout> <outgoing limit> <stalled 0|1>
+          <default force_after> <fixed 0|1> ; <event> ; ...`   (fixed: repair F25 applied / code as pinned)
          events: `Q i` `W i` `B i r` `C i fa` `X i` `D i` (request with a quick / waiting /
          stubborn / closing / aborting / reply-and-disconnect handler; `D` closes with the
          default force_after after replying) `NQ i` `NW i` (notifications) `BT i j` (batch
          [waiting, quick]) `F i` `O k` `OB k` (request / batch) `ON k` (notification: no waiter)
          `R k` `L` `LE` (peer closed / link broke) `AC c fa` `ACC c d fa` `ACT c fa` `AB` `A dt`
-    out: per event `hook=.. closed=.. live=.. tickets=.. closers=.. aborts=.. now=.. closing=..`,
-         separated by ` ; ` -/
+         `WC i fa` (handler waits for `F i`, then closes) `Z i` (the future handler i awaits is cancelled) `XC c` (the task in close() is cancelled)
+         `OM k n` (n send_request tasks k .. k+n-1 started together)
+    out: per event `hook=.. closed=.. live=.. tickets=.. closers=.. abort=.. lost=.. now=..
+         closing=..`, separated by ` ; ` (`abort` = instant of the first abort() that came
+         before connection_lost, `-` if none) -/
 open Aiorpcx Aiorpcx.C08
 
 def parseEvent (dfa : Nat) (s : String) : Option (List Event) :=
@@ -19,11 +23,17 @@ def parseEvent (dfa : Nat) (s : String) : Option (List Event) :=
   | ["NW", i] => do pure [.request (← i.toNat?) .slow]
   | ["BT", i, j] => do pure [.request (← i.toNat?) .slow, .request (← j.toNat?) .quick]
   | ["X", i] => do pure [.request (← i.toNat?) .aborter]
-  | ["D", i] => do pure [.request (← i.toNat?) (.closer dfa)]
+  | ["D", i] => do pure [.replyClose (← i.toNat?) dfa]
+  | ["Z", i] => do pure [.handlerCancel (← i.toNat?)]
+  | ["XC", c] => do pure [.cancelClose (← c.toNat?)]
+  | ["OM", k, n] => do
+      let k0 ← k.toNat?
+      pure ((List.range (← n.toNat?)).map fun j => .outgoing (k0 + j))
   | ["OB", k] => do pure [.outgoing (← k.toNat?)]
   | ["ON", _] => some []
   | ["B", i, r] => do pure [.request (← i.toNat?) (.stubborn (← r.toNat?))]
   | ["C", i, fa] => do pure [.request (← i.toNat?) (.closer (← fa.toNat?))]
+  | ["WC", i, fa] => do pure [.request (← i.toNat?) (.thenClose (← fa.toNat?))]
   | ["F", i] => do pure [.handlerFinish (← i.toNat?)]
   | ["O", k] => do pure [.outgoing (← k.toNat?)]
   | ["R", k] => do pure [.answer (← k.toNat?)]
@@ -42,6 +52,7 @@ def b01 (b : Bool) : String := if b then "1" else "0"
 
 def tstr : TStatus → String
   | .pending => "pending"
+  | .queued => "pending"
   | .answered => "answered"
   | .cancelled => "cancelled"
   | .timedOut t => s!"timedOut@{t}"
@@ -50,26 +61,29 @@ def cstr : CStatus → String
   | .waiting => "waiting"
   | .abortedWaiting => "waiting"
   | .returned t => s!"returned@{t}"
+  | .cancelled _ => "cancelled"
 
 def record (s : S) : String :=
   let live := (s.handlers.filter (fun h => !h.isDone)).length
   let ts := String.intercalate "," (s.tickets.map fun t => s!"{t.id}:{tstr t.status}")
   let cs := String.intercalate "," (s.closers.map fun c => s!"{c.id}:{cstr c.st}")
-  let ab := String.intercalate "," (s.aborts.map toString)
-  s!"hook={s.hookRuns} closed={b01 s.closedEvent} live={live} tickets={ts} closers={cs} aborts={ab} now={s.now} closing={b01 s.closing}"
+  let ab := match s.abortedAt with | some t => toString t | none => "-"
+  s!"hook={s.hookRuns} closed={b01 s.closedEvent} live={live} tickets={ts} closers={cs} abort={ab} lost={b01 s.lost} now={s.now} closing={b01 s.closing}"
 
 def handle (line : String) : String :=
   match (line.splitOn ";").map (·.trimAscii.toString) with
   | hd :: evs =>
     match (hd.splitOn " ").filter (· ≠ "") with
-    | [rt, st, dfa] =>
-      match rt.toNat?, dfa.toNat?, evs.mapM (parseEvent (dfa.toNat?.getD 30)) with
-      | some t, some _, some ess =>
+    | [rt, pt, ol, st, dfa, fx] =>
+      match rt.toNat?, pt.toNat?, ol.toNat?, dfa.toNat?,
+            evs.mapM (parseEvent (dfa.toNat?.getD 30)) with
+      | some t, some p, some l, some _, some ess =>
         let rec go (s : S) : List (List Event) → List String
           | [] => []
           | es :: rest => let s1 := run s es; record s1 :: go s1 rest
-        String.intercalate " ; " (go (init t (st == "1")) ess)
-      | _, _, _ => "bad-op"
+        String.intercalate " ; "
+          (go (if fx == "1" then init t p l (st == "1") else initPinned t p l (st == "1")) ess)
+      | _, _, _, _, _ => "bad-op"
     | _ => "bad-op"
   | _ => "bad-op"
 
